@@ -50,7 +50,10 @@ impl Interpreter {
                 self.state.clone()
             }
             ScriptBit::If { code, pass, fail } => {
-                let predicate = self.state.stack.pop_bool()?;
+                let mut predicate = self.state.stack.pop_bool()?;
+                if *code == OpCodes::OP_NOTIF {
+                    predicate = !predicate;
+                }
                 self.state.executed_opcodes.push(*code);
 
                 if predicate {
